@@ -27,7 +27,8 @@ RULE = ("case = one generated flatten-ready netlist (named instances/cables, dep
         "crosses two or more levels (contains endpoints of different path lengths or top port bits and depth>=2 leaves)")
 ASSUMPTIONS = ["instance and cable names contain no '/' except as the first character of a name directly under the top", "netlist uniquified first (quantifier of C09)"]
 REQUIRED = {"flattened": 100, "endpoint_classes_compared": 1000, "leaf_occurrences_compared": 500,
-            "netlists_with_identifiers": 30, "reader_produced_netlists": 10}
+            "netlists_with_identifiers": 30, "reader_produced_netlists": 10,
+            "bus_ports_reordered_after_instancing": 40}
 PROBES = {}
 IGNORED_KEYS = (".NAME", "EDIF.identifier", ".NS")
 
